@@ -1251,6 +1251,18 @@ class _Pass(ast.NodeTransformer):
                 return self._done(ast.Call(func=ast.Attribute(value=n.args[0], attr=fn.attr, ctx=ast.Load()), args=list(n.args[1:]), keywords=list(n.keywords)), n)
         return n
 
+    def visit_BoolOp(self, n: ast.BoolOp):
+        """the later operands of `and` / `or` are evaluated conditionally: the flattener cannot put the statements of an inlined helper
+        there (it analyses the first operand in place only), so a one-expression helper called there is applied in place, as inside
+        comprehensions (`a or self._has(m2, text) or self._has(m3, text)`, what `any(<helper call> for m in TABLE)` is written out to)"""
+        n.values[0] = self.visit(n.values[0])
+        self.in_expr_only += 1
+        try:
+            n.values[1:] = [self.visit(x) for x in n.values[1:]]
+        finally:
+            self.in_expr_only -= 1
+        return n
+
     def _apply(self, f: ast.AST, args: List[ast.AST]) -> Optional[ast.AST]:
         """the expression `f(*args)` with a callable value replaced by what it evaluates"""
         r = self.N.callable_value(f, None, bound_ok=True)
